@@ -125,7 +125,48 @@ package pilosa
 //@   loop 1 invariant forall k :: 0 <= k && k < i ==> nodes[k] == c.nodes[(nodeIndex + k) % len(c.nodes)]
 //@   loop 1 decreases replicaN - i
 
+// ---- C15 / C03: row segments ---------------------------------------------------------
+//@ byref rowSegment AttrBlock
+
+// next: lower shard first, both when equal; the returned pointers are the heads
+// of the respective lists (provenance), and exactly the returned heads are consumed.
+//@ contract (*mergeSegmentIterator).next props C15,C03
+//@   requires itr != nil
+//@   ensures s0 != nil ==> old(len(itr.a0)) > 0 && s0 == old(itr.a0[0])
+//@   ensures s1 != nil ==> old(len(itr.a1)) > 0 && s1 == old(itr.a1[0])
+//@   ensures (s0 == nil && s1 == nil) <==> (old(len(itr.a0)) == 0 && old(len(itr.a1)) == 0)
+//@   ensures s0 != nil && s1 != nil ==> s0.shard == s1.shard
+//@   ensures s0 != nil && s1 == nil && old(len(itr.a1)) > 0 ==> s0.shard < old(itr.a1[0]).shard
+//@   ensures s1 != nil && s0 == nil && old(len(itr.a0)) > 0 ==> s1.shard < old(itr.a0[0]).shard
+//@   ensures s0 != nil ==> itr.a0 == old(itr.a0[1:])
+//@   ensures s0 == nil ==> itr.a0 == old(itr.a0)
+//@   ensures s1 != nil ==> itr.a1 == old(itr.a1[1:])
+//@   ensures s1 == nil ==> itr.a1 == old(itr.a1)
+//@   modifies itr.a0, itr.a1
+
 // ---- C25: attribute block diff ------------------------------------------------------
+
+//@ spec sortedBlocks(a []AttrBlock) = forall i, j :: 0 <= i && i < j && j < len(a) ==> a[i].ID < a[j].ID
+//@ spec sameSum(x []byte, y []byte) = len(x) == len(y) && (forall i :: 0 <= i && i < len(x) ==> x[i] == y[i])
+// differs(a,i,other): block a[i] is absent from other or present with another checksum
+//@ spec differs(a []AttrBlock, i int, other []AttrBlock) = forall j :: 0 <= j && j < len(other) && other[j].ID == a[i].ID ==> !sameSum(a[i].Checksum, other[j].Checksum)
+
+// Diff returns, in ascending order, exactly the IDs of blocks of a that are
+// missing from other or differ in checksum.
+//@ contract (attrBlocks).Diff props C25
+//@   requires sortedBlocks(a) && sortedBlocks(other) && len(a) <= 100000000 && len(other) <= 100000000
+//@   ensures forall k :: 0 <= k && k < len(result) ==> (exists i :: 0 <= i && i < len(a) && a[i].ID == result[k] && differs(a, i, other))
+//@   ensures forall i :: 0 <= i && i < len(a) && differs(a, i, other) ==> (exists k :: 0 <= k && k < len(result) && result[k] == a[i].ID)
+//@   ensures forall k, l :: 0 <= k && k < l && l < len(result) ==> result[k] < result[l]
+//@   loop 1 invariant a.ref == a_0.ref && a.off + len(a) == a_0.off + len(a_0) && a.off >= a_0.off && other.ref == other_0.ref && other.off + len(other) == other_0.off + len(other_0) && other.off >= other_0.off
+//@   loop 1 invariant unchanged(a_0) && unchanged(other_0) && (len(ids) == 0 || fresh(ids))
+//@   loop 1 invariant forall k, l :: 0 <= k && k < l && l < len(ids) ==> ids[k] < ids[l]
+//@   loop 1 invariant forall k :: 0 <= k && k < len(ids) ==> (len(a) > 0 ==> ids[k] < a[0].ID)
+//@   loop 1 invariant forall k :: 0 <= k && k < len(ids) ==> (exists i :: 0 <= i && i < len(a_0) - len(a) && a_0[i].ID == ids[k] && differs(a_0, i, other_0))
+//@   loop 1 invariant forall i :: 0 <= i && i < len(a_0) - len(a) && differs(a_0, i, other_0) ==> (exists k :: 0 <= k && k < len(ids) && ids[k] == a_0[i].ID)
+//@   loop 1 invariant forall i, j :: 0 <= i && i < len(a_0) - len(a) && 0 <= j && j < len(other) ==> a_0[i].ID < other[j].ID
+//@   loop 1 invariant forall j :: 0 <= j && j < len(other_0) - len(other) ==> (len(a) > 0 ==> other_0[j].ID < a[0].ID)
+//@   loop 1 decreases len(a) + len(other)
 
 // baseValueBetween: the clamped interval, relative to Base, is exactly the part
 // of [lo,hi] that the bit depth can represent.
@@ -135,3 +176,53 @@ package pilosa
 //@   ensures !outOfRange ==> baseValueLo == max(lo, b.Base - pow2(b.BitDepth) + 1) - b.Base && baseValueHi == min(hi, b.Base + pow2(b.BitDepth) - 1) - b.Base
 //@   ensures !outOfRange ==> -pow2(b.BitDepth) < baseValueLo && baseValueLo <= baseValueHi && baseValueHi < pow2(b.BitDepth)
 //@   modifies nothing
+
+
+// ---- C07 / C10 / C12 / C16: single-bit write paths of a fragment -------------------
+// Protocol form of the fragment coherence invariant (DESIGN.md 4.4): a write that
+// changes row r must leave no cached checksum for r's block, no cached row object
+// for r, a cache count that was recomputed from storage after the write, and
+// maxRowID >= r.
+
+//@ ghost cache.$cnt map[uint64]int
+//@ ghost bitmapCache.$row map[uint64]*Row
+
+//@ contract (cache).Add trusted props C07,C10,C12,C28
+//@   modifies self.$cnt, rankCache.*, lruCache.*
+//@   ensures self.$cnt[id] == n || self.$cnt[id] == 0
+//@   ensures forall j :: j != id ==> (self.$cnt[j] == old(self.$cnt[j]) || self.$cnt[j] == 0)
+//@ contract (bitmapCache).Add trusted props C07,C10,C12,C28
+//@   modifies self.$row, simpleCache.*
+//@   ensures self.$row[id] == b
+//@   ensures forall j :: j != id ==> self.$row[j] == old(self.$row[j])
+
+// incrementOpN may trigger a snapshot, which rewrites and remaps the storage file
+// but preserves the stored set (trusted: file I/O, goroutines).
+//@ contract (*fragment).incrementOpN trusted props C07,C10,C12,C28
+//@   requires f != nil
+//@   modifies f.opN, f.ops, f.snapshotting, f.snapshotsRequested, f.snapshotDelays, f.snapshotDelayTime, f.storage
+//@   ensures f.storage != nil && f.storage.$set == old(f.storage.$set)
+//@   ensures f.checksums == old(f.checksums) && f.cache == old(f.cache) && f.rowCache == old(f.rowCache)
+
+//@ spec bitPos(rowID int, columnID int) = rowID * 1048576 + columnID % 1048576
+//@ spec fragOK(f *fragment) = f != nil && f.storage != nil && f.cache != nil && f.rowCache != nil && f.shard <= 17592186044415
+
+//@ contract (*fragment).unprotectedSetBit props C07,C10,C12,C16,C28
+//@   requires fragOK(f) && rowID <= 17592186044415
+//@   ensures err == nil ==> f.storage.$set[bitPos(rowID, columnID)] && (changed <==> !old(f.storage.$set[bitPos(rowID, columnID)]))
+//@   ensures err == nil ==> (forall x :: x != bitPos(rowID, columnID) ==> (f.storage.$set[x] <==> old(f.storage.$set[x])))
+//@   ensures err != nil ==> !changed && (forall x :: f.storage.$set[x] <==> old(f.storage.$set[x]))
+//@   ensures changed ==> !haskey(f.checksums, rowID / 100)
+//@   ensures changed ==> f.rowCache.$row[rowID] == nil
+//@   ensures changed && f.CacheType != CacheTypeNone ==> (f.cache.$cnt[rowID] == cardRange(f.storage.$set, rowID * 1048576, (rowID + 1) * 1048576) || f.cache.$cnt[rowID] == 0)
+//@   ensures changed ==> f.maxRowID >= rowID
+//@   ensures !changed ==> f.checksums == old(f.checksums) && f.maxRowID == old(f.maxRowID)
+
+//@ contract (*fragment).unprotectedClearBit props C07,C10,C12,C28
+//@   requires fragOK(f) && rowID <= 17592186044415
+//@   ensures err == nil ==> !f.storage.$set[bitPos(rowID, columnID)] && (changed <==> old(f.storage.$set[bitPos(rowID, columnID)]))
+//@   ensures err == nil ==> (forall x :: x != bitPos(rowID, columnID) ==> (f.storage.$set[x] <==> old(f.storage.$set[x])))
+//@   ensures err != nil ==> !changed && (forall x :: f.storage.$set[x] <==> old(f.storage.$set[x]))
+//@   ensures changed ==> !haskey(f.checksums, rowID / 100)
+//@   ensures changed ==> f.rowCache.$row[rowID] == nil
+//@   ensures changed && f.CacheType != CacheTypeNone ==> (f.cache.$cnt[rowID] == cardRange(f.storage.$set, rowID * 1048576, (rowID + 1) * 1048576) || f.cache.$cnt[rowID] == 0)
